@@ -48,6 +48,25 @@ class time_limit:
         return False
 
 
+class default_recursion:
+    """run the code under test with the recursion head-room a caller at top level has (the checking process itself
+    raises the limit for its own engine; that must not hide RecursionError in the code under test)"""
+
+    def __enter__(self):
+        self.old = sys.getrecursionlimit()
+        depth = 0
+        f = sys._getframe()
+        while f is not None:
+            depth += 1
+            f = f.f_back
+        sys.setrecursionlimit(1000 + depth)
+        return self
+
+    def __exit__(self, *a):
+        sys.setrecursionlimit(self.old)
+        return False
+
+
 def load_real(repo="/repo"):
     import importlib
     if repo not in sys.path:
@@ -70,7 +89,7 @@ def classify(e, X):
 def run_tokens(X, src, wall=3.0):
     toks = []
     tl = time_limit(wall)
-    with tl:
+    with tl, default_recursion():
         try:
             for t in X.tokenize.generate_tokens(src):
                 toks.append(t)
@@ -84,7 +103,7 @@ def run_tokens(X, src, wall=3.0):
 
 def run_parse(X, src, mode="exec", wall=5.0, **kw):
     tl = time_limit(wall)
-    with tl:
+    with tl, default_recursion():
         try:
             tree = X.parser.XonshParser.parse_string(src, mode=mode, **kw)
             return ("ok" if tree is not None else "None"), tree
@@ -215,6 +234,8 @@ def c01(X, src, mode="exec"):
         v = {"kind": "rejects-valid-python", "observed": [kind, sig], "expected": "tree equal to ast.parse"}
         if lone_cr:
             v["feature"] = "lone-cr-newline"
+        elif isinstance(tree, SyntaxError) and tree.msg == "too many nested constructs":
+            v["feature"] = "recursion-limit"
         return v
     a, b = dump(tree), dump(ref)
     if a == b:
